@@ -388,13 +388,18 @@ def _conc_stmts(r, g, stmts, env, enum, depth):
         raise _Unknown(type(st).__name__)
 
 
-def _concrete_normalisation(r: Resolver, fi: FuncInfo, chain: _Chain):
-    """{(member, incoming form): value at the chain}; value is a _Mem, a str, or ('raises', why).  None if outside the fragment."""
+def _concrete_normalisation(r: Resolver, fi: FuncInfo, chain: _Chain, init: Optional[Dict[Tuple[str, str], object]] = None):
+    """{(member, incoming form): value at the chain}; value is a _Mem, a str, or ('raises', why).  None if outside the fragment.
+    `init` gives the value the parameter has on entry (a private helper fed by its callers); default: the label as the caller passed it."""
     out = {}
     pre = [st for st in fi.node.body if st.lineno < chain.first_if.lineno]
     for m, v in enum_members(chain.enum).items():
         for form in ("member", "text"):
-            env: Dict[str, object] = {chain.param: _Mem(chain.enum, m, v) if form == "member" else v}
+            start = init[(m, form)] if init is not None else (_Mem(chain.enum, m, v) if form == "member" else v)
+            if isinstance(start, tuple):
+                out[(m, form)] = start
+                continue
+            env: Dict[str, object] = {chain.param: start}
             try:
                 for st in pre:
                     if not any(isinstance(x, ast.Name) and x.id == chain.param and isinstance(x.ctx, ast.Store) for x in ast.walk(st)):
@@ -407,6 +412,59 @@ def _concrete_normalisation(r: Resolver, fi: FuncInfo, chain: _Chain):
             except _Unknown:
                 return None
     return out
+
+
+def _helper_entry_values(p: Program, r: Resolver, fi: FuncInfo, chain: _Chain):
+    """For a chain that lives in a private helper: the value its label parameter receives from every caller, per (member, form the PUBLIC caller was given).
+    None when the callers cannot be interpreted (then the chain is left undecided)."""
+    callers = []
+    for g in p.all_funcs:
+        if g is fi or isinstance(g.node, ast.Lambda):
+            continue
+        for st in g.node.body:
+            for c in ast.walk(st):
+                if isinstance(c, ast.Call) and fi in r.resolve_call(g, c):
+                    callers.append((g, st, c))
+    if not callers:
+        return None
+    merged: Dict[Tuple[str, str], object] = {}
+    for g, st, call in callers:
+        arg = None
+        if chain.param in fi.pos_params and fi.pos_params.index(chain.param) < len(call.args):
+            arg = call.args[fi.pos_params.index(chain.param)]
+        for k in call.keywords:
+            if k.arg == chain.param:
+                arg = k.value
+        if arg is None:
+            return None
+        # names the argument depends on, back to a parameter of the caller
+        closure = {x.id for x in ast.walk(arg) if isinstance(x, ast.Name)}
+        pre = [s2 for s2 in g.node.body if s2.lineno < st.lineno]
+        for _ in range(4):
+            for s2 in pre:
+                if isinstance(s2, ast.Assign) and any(isinstance(t, ast.Name) and t.id in closure for t in s2.targets):
+                    closure |= {x.id for x in ast.walk(s2.value) if isinstance(x, ast.Name)}
+        qs = [q for q in g.pos_params + g.kwonly_params if q in closure]
+        if len(qs) != 1 or g.name.startswith("_"):
+            return None
+        q = qs[0]
+        for m, v in enum_members(chain.enum).items():
+            for form in ("member", "text"):
+                env: Dict[str, object] = {q: _Mem(chain.enum, m, v) if form == "member" else v}
+                try:
+                    for s2 in pre:
+                        if isinstance(s2, ast.Assign) and any(isinstance(t, ast.Name) and t.id in closure for t in s2.targets):
+                            try:
+                                _conc_stmts(r, g, [s2], env, chain.enum, 0)
+                            except _Ret:
+                                pass
+                    val = _conc(r, g, arg, env, chain.enum, 0)
+                except _Unknown:
+                    return None
+                if (m, form) in merged and merged[(m, form)] != val and not (isinstance(val, str) and merged[(m, form)] == val):
+                    return None                       # callers disagree: leave undecided
+                merged[(m, form)] = val
+    return merged
 
 
 def _normalisation(r: Resolver, fi: FuncInfo, chain: _Chain) -> Dict[str, str]:
@@ -467,13 +525,27 @@ def check_dispatch(ctx: CheckContext, p: Program, r: Resolver, rule: str = "DISP
             members = enum_members(ch.enum)
             eq_text = enum_eq_text(r, ch.enum)
             concrete = None
-            try:
-                mode = _normalisation(r, fi, ch)
-            except AnalysisError:
-                concrete = _concrete_normalisation(r, fi, ch)
+            if fi.name.startswith("_") and not fi.name.startswith("__"):
+                # a private helper sees what its callers hand it (usually the already normalised text), not the two label forms of the public API
+                entry = _helper_entry_values(p, r, fi, ch)
+                if entry is None:
+                    ctx.info.setdefault("dispatch_undecided", []).append(f"{fi.qualname}: label values reaching this private helper could not be derived from its callers")
+                    total -= 1
+                    continue
+                concrete = _concrete_normalisation(r, fi, ch, entry)
                 if concrete is None:
-                    raise
+                    ctx.info.setdefault("dispatch_undecided", []).append(f"{fi.qualname}: normalisation inside the helper not interpreted")
+                    total -= 1
+                    continue
                 mode = {"member": "?", "text": "?"}
+            else:
+                try:
+                    mode = _normalisation(r, fi, ch)
+                except AnalysisError:
+                    concrete = _concrete_normalisation(r, fi, ch)
+                    if concrete is None:
+                        raise
+                    mode = {"member": "?", "text": "?"}
             dedicated = set()
             branch_accepts = []
             for test, ifn in ch.branches:
